@@ -254,6 +254,19 @@ type YangType struct {
 
 // Equal returns true if y and t describe the same type.
 func (y *YangType) Equal(t *YangType) bool {
+	return y.equal(t, map[[2]*YangType]bool{})
+}
+
+// equal is Equal with the pairs of types compared so far in seen: the members
+// of unions are shared between the types that are built from them, so that a
+// union of unions is a graph, which is compared pair by pair and not as the
+// tree it unfolds to (whose size doubles with every level).
+func (y *YangType) equal(t *YangType, seen map[[2]*YangType]bool) (eq bool) {
+	pair := [2]*YangType{y, t}
+	if r, ok := seen[pair]; ok {
+		return r
+	}
+	defer func() { seen[pair] = eq }()
 	switch {
 	case y == t:
 		return true
@@ -275,7 +288,7 @@ func (y *YangType) Equal(t *YangType) bool {
 		!ssEqual(y.POSIXPattern, t.POSIXPattern),
 		len(y.Range) != len(t.Range),
 		!y.Range.Equal(t.Range),
-		!tsEqual(y.Type, t.Type),
+		!tsEqual(y.Type, t.Type, seen),
 		!cmp.Equal(y.Enum, t.Enum, cmp.Comparer(func(t, u EnumType) bool {
 			return cmp.Equal(t.unique, u.unique) && cmp.Equal(t.ToInt, u.ToInt) && cmp.Equal(t.ToString, u.ToString)
 		})),
@@ -318,14 +331,14 @@ func ssEqual(s1, s2 []string) bool {
 }
 
 // tsEqual returns true if the two Type slices are identical.
-func tsEqual(t1, t2 []*YangType) bool {
+func tsEqual(t1, t2 []*YangType, seen map[[2]*YangType]bool) bool {
 	if len(t1) != len(t2) {
 		return false
 	}
 	// For now we compare absolute pointers.
 	// This may be wrong.
 	for x, t := range t1 {
-		if !t.Equal(t2[x]) {
+		if !t.equal(t2[x], seen) {
 			return false
 		}
 	}
